@@ -1,5 +1,6 @@
 import Hifi.Model.Proto
 import Hifi.Model.Epoch
+import Hifi.Model.Views
 import Hifi.Spec.Epoch
 import Hifi.Drive.Duration
 /-
@@ -274,7 +275,11 @@ def handleOps (op : String) (args : List String) (impl : Impl) : Option Ans :=
     let exact := decide (k.natAbs * 1000000000 < 9007199254740992 * 512)  -- k·10^9 = k·5^9·2^9: exact while k·5^9 < 2^53
     let exact := exact && decide (k.natAbs * 1953125 < 9007199254740992)
     let m : Ep := ⟨Dur.add e.dur (nsDur (k * 1000000000)), e.ts⟩
-    pure { model := if exact then "ok " ++ showEp m else "unmodelled",
+    -- inexact products (|k| beyond ~4.6e9 s, recorded as D19: inherent to `f64 * 1e9`): the model evaluates
+    -- the same binary64 product with hardware floats; the property's statement does not cover them
+    let bits := f.toList.foldl (fun acc c => acc * 16 + (if c.isDigit then c.toNat - 48 else c.toNat - 87)) 0
+    let mf : Ep := ⟨Dur.add e.dur (Hifi.Views.unitMulF 1000000000.0 (Float.ofBits (UInt64.ofNat bits))), e.ts⟩
+    pure { model := if exact then "ok " ++ showEp m else "ok " ++ showEp mf,
            spec := if exact then judgeEpValue impl e.ts (clampD (sval e.dur + k * 1000000000)) else noPanic impl,
            branch := "eaddf:" ++ (if exact then "exact_product" else "inexact_product") }
   | "eroundtrip", [e, d] => do
